@@ -1,17 +1,28 @@
 """C13 -- corrupt or truncated files are rejected without memory errors or hangs.
 
-Proof side : coq/Properties_C13.v (AdfCodec.v / AdfWalk.v: the ADF decoders and the read-only client operations as
-             total functions over the byte string of the file, buffers modelled with their sizes; hex decoder,
-             decoder soundness, codec round trips, termination of open, eight _refuted witnesses, safety of the
-             proposed repair for every file).
+Proof side : coq/Properties_C13.v.  coq/AdfCodec.v + coq/AdfWalk.v transcribe the ADF decoders and the read-only client
+             operations as total functions over the byte string of the file, buffers modelled with their sizes.  The
+             code exists in two states, selected by the record AdfCodec.fixes (one switch per repair of
+             notes/C13-fixes/NN-*.diff): [legacy] = before the repairs, [repaired] = with them.  Theorems: hex decoder,
+             decoder soundness, codec round trips, termination of open; for [legacy] the _refuted witnesses of every
+             forbidden outcome; for [repaired] C13_no_oob (no out-of-bounds store / load, no uninitialised or stale
+             byte, no assert, no signed overflow -- for EVERY byte string and every fuel) and
+             C13_link_recursion_bounded.
+Switch     : which state the library built from the working tree is in is found out at run time (step 3): every
+             witness file of corpus/C13 is run first; a witness the library still mishandles is reported with the
+             finding key of its defect and its switch stays on [legacy]; a witness the library rejects the way the
+             repaired model says turns its switch to [repaired].  The correspondence is then run against the model in
+             exactly that state, so it holds for the unrepaired, the repaired and a partly repaired library; the
+             evidence records the state seen (coverage.library_state).
 Tie        : correspondence -- the extracted model and the real library (ASan/UBSan build of the working tree) walk
-             the same files: a harness-generated corpus of valid ADF files, every witness file of the theorems, and
-             model-guided mutants (truncations; every field of every structure the MODEL'S decoders locate, set to
-             each boundary class; structural attacks assembled with the MODEL'S encoders).  Verdicts, decoded
-             values and -- where the model predicts a forbidden outcome -- the kind of crash are compared.
+             the same files: a harness-generated corpus of valid ADF files, the witness files, and model-guided
+             mutants (truncations; every field of every structure the MODEL'S decoders locate, set to each boundary
+             class; structural attacks assembled with the MODEL'S encoders).  Verdicts, decoded values and -- where
+             the model predicts a forbidden outcome -- the kind of crash are compared.
 Oracle (model-independent, the property itself): for every mutant, cgio_check_file, a full cgio walk and
-             cg_open + broad MLL read, each in its own process with a 10 s watchdog: the outcome must be a clean
-             return (never asan / ubsan / signal / timeout / exit()) and the file's SHA-256 must be unchanged.
+             cg_open + broad MLL read, each in its own process with a 10 s watchdog (a timeout is confirmed with 60 s):
+             the outcome must be a clean return (never asan / ubsan / signal / timeout / exit()) and the file's
+             SHA-256 must be unchanged.
 HDF5       : truncations and byte corruptions around attribute values located by unique markers; oracle only.
 """
 import base64, hashlib, json, os, re, subprocess, time
@@ -21,14 +32,24 @@ import vlib
 CHECKER = "make -C coq Properties_C13.vo (coqc 8.16.1 kernel) ; coqc Properties_C13.v (Print Assumptions)"
 FUEL = 400
 WATCHDOG = 10
-WORKERS = 8
-WITNESSES = ["valid", "oobw", "oobr", "cycle", "linkrec", "biglink", "abort", "tagscan", "stale"]
+WATCHDOG_CONFIRM = 60
+WORKERS = 4
+CORPUS = os.path.join(vlib.ROOT, "corpus", "C13")
+FLAGS = ["snt", "dct", "link", "nest", "fmt", "tag", "dtov", "rtype", "dim", "short", "sizes"]      # order of AdfCodec.fixes
+FLAG_FIX = {"snt": "01", "dct": "02", "link": "03", "nest": "04", "fmt": "05", "tag": "06", "dtov": "07", "rtype": "08",
+            "dim": "11", "short": "13", "sizes": "14"}
 KNOWN_DEFECT_KEY = "adf-subnode-table-count-vs-chunk-length"
+_CFG = {"bits": "0" * len(FLAGS)}
 
 
 # ------------------------------------------------------------------ small helpers
-def model(script, timeout=900):
-    return vlib.run_model("c13", script, timeout=timeout)
+def cfgbits(state):
+    return "".join("1" if state.get(f) else "0" for f in FLAGS)
+
+
+def model(script, timeout=900, bits=None):
+    """the extracted model in the state [bits] (default: the state found for the library in step 3)"""
+    return vlib.run_model("c13", "cfg %s\n" % (bits or _CFG["bits"]) + script, timeout=timeout)
 
 
 def blocks(lines):
@@ -52,58 +73,127 @@ def sha(path):
         return None
 
 
-def crash_site(exe, args, cwd=None):
-    """second run of a crashing case, stderr kept: first stack frame inside the CGNS sources or libhdf5"""
+def field_class(desc):
+    """structure.field of a mutation description: 'node@1162.dim0=2^63' -> 'node.dim', 'truncate to 17' -> 'truncation'"""
+    if desc.startswith("truncate"):
+        return "truncation"
+    if desc.startswith("byte "):
+        return "hdf5-byte"
+    if desc.startswith("theorem witness") or desc.startswith("witness"):
+        return "witness"
+    m = re.match(r"node@\d+: (.*)", desc)
+    if m:
+        return "node." + re.sub(r"[^a-z]+", "-", re.sub(r"\d+", "", m.group(1).lower())).strip("-")[:30]
+    d = re.split(r"=|->", desc)[0]
+    d = re.sub(r"@\d+", "", d)
+    d = re.sub(r"\[\d+\]", "", d)
+    d = re.sub(r"\d+$", "", d)
+    d = re.sub(r"entry\d+", "entry", d)
+    return d
+
+
+def crash_report(exe, args, cwd=None, timeout=WATCHDOG + 5):
+    """second run of a crashing case, stderr kept -> (frames [(fn, where)], ubsan message or None)"""
     e = dict(os.environ); e.update(vlib.ASAN_ENV)
     try:
         p = subprocess.run([exe] + list(args), stdin=subprocess.DEVNULL, stdout=subprocess.PIPE, stderr=subprocess.PIPE,
-                           text=True, errors="replace", timeout=WATCHDOG + 5, cwd=cwd, env=e)
+                           text=True, errors="replace", timeout=timeout, cwd=cwd, env=e)
     except subprocess.TimeoutExpired:
-        return "cgns", "?"
+        return [], None
     err = p.stderr
-    for m in re.finditer(r"#\d+ 0x[0-9a-f]+ in (\w+) (\S+)", err):
-        fn, where = m.group(1), m.group(2)
-        if fn.startswith("__asan") or fn.startswith("__interceptor") or fn.startswith("__ubsan") or fn in (
-                "memcpy", "memset", "strcpy", "strlen", "strncpy", "strchr", "printf_common", "vsprintf", "sprintf"):
+    frames = []
+    for m in re.finditer(r"#(\d+) 0x[0-9a-f]+ in (\S+) (\S+)", err):
+        if m.group(1) == "0" and frames:
+            break                                   # the first stack only (the access), not the allocation stack
+        frames.append((m.group(2), m.group(3)))
+        if len(frames) >= 40:
+            break
+    um = re.search(r"runtime error: ([^\n]*)", err)
+    return frames, (um.group(1) if um else None)
+
+
+_SKIP = ("__asan", "__interceptor", "__ubsan", "__sanitizer", "memcpy", "memset", "strcpy", "strlen", "strncpy", "strchr",
+         "printf_common", "vsprintf", "sprintf", "read", "__GI_")
+
+
+def lib_frames(frames):
+    """function names of the library's own frames, innermost first"""
+    out = []
+    for fn, where in frames:
+        if any(fn.startswith(x) for x in _SKIP) or "/harness/" in where or fn == "main":
             continue
-        if "libhdf5" in where or re.match(r"H5[A-Z]*_", fn):
-            return "hdf5-lib", fn
-        if "/harness/" in where or fn == "main":
-            return "harness", fn
-        return "cgns", fn
-    m = re.search(r"(\S+\.c):\d+:\d+: runtime error", err)
-    if m:
-        return "cgns", os.path.basename(m.group(1))
-    return "cgns", "?"
+        if "libc" in where or "libasan" in where:
+            continue
+        out.append(fn)
+    return out
 
 
-_SITE_CACHE = {}
-
-
-def outcome_key(backend, mode, outcome, lines, exe, args, cwd=None, hint=None):
-    """stable key <backend>:<kind>@<function> of a forbidden outcome.  Naming the function needs a second run with
-    stderr kept; at most 4 such runs per (mode, outcome, mutation class), later cases reuse the names found"""
+def root_cause(backend, mode, outcome, lines, frames, umsg, fclass):
+    """stable finding key: the root cause where a rule recognises it, else <backend>:<kind>@<function>:<field class>.
+    Listing one key as known must not hide a different defect with the same crash site: the fall-back key therefore
+    carries the class of the mutated field, and the rules look at the whole stack, not at the top frame only."""
+    fns = lib_frames(frames)
+    S = set(fns)
+    top = fns[0] if fns else "?"
     if outcome == "timeout":
-        return "%s:timeout@%s" % (backend, mode)
+        return "%s:timeout@%s:%s" % (backend, mode, fclass)
     asserted = [l for l in lines if l.startswith("ASSERT ")]
     if asserted:
-        return "%s:assert@%s" % (backend, asserted[-1].split()[1])
+        fn = asserted[-1].split()[1]
+        if fn == "ADFI_read_file_header":
+            return "adf:file-header-format-letter-undefined-assert"
+        return "%s:assert@%s:%s" % (backend, fn, fclass)
     if any(l == "libexit" for l in lines) or outcome.startswith("exit:"):
-        return "%s:library-exit@%s" % (backend, mode)
-    ck_ = (backend, mode, outcome, hint)
-    seen = _SITE_CACHE.setdefault(ck_, [])
-    if len(seen) < 4:
-        seen.append(crash_site(exe, args, cwd))
-    where, fn = seen[-1]
+        return "%s:library-exit@%s:%s" % (backend, mode, fclass)
     if outcome.startswith("asan:"):
-        kind = outcome[5:].split("@")[0]
+        kind = outcome[5:].split("@")[0].rstrip(":")
     elif outcome.startswith("ubsan:"):
-        kind = "ubsan-" + re.sub(r"[^a-z]+", "-", re.sub(r"\d+", "", outcome[6:].split(" for type")[0].lower())).strip("-")[:40]
+        kind = "ubsan-" + re.sub(r"[^a-z]+", "-", re.sub(r"-?\d+", "", (umsg or outcome[6:]).split(" for type")[0].lower())).strip("-")[:40]
     else:
         kind = outcome.replace(":", "")
-    if where == "hdf5-lib":
-        return "hdf5-lib:%s@%s" % (kind, fn)
-    return "%s:%s@%s" % (backend, kind, fn)
+    if any(re.match(r"H5[A-Z]*_", f) for f in fns[:1]) or (frames and "libhdf5" in frames[0][1]):
+        return "hdf5-lib:%s@%s" % (kind, top)
+    if backend == "adf":
+        if "ADFI_read_sub_node_table" in S and kind == "heap-buffer-overflow":
+            return KNOWN_DEFECT_KEY
+        if "ADFI_compare_node_names" in S and "ADFI_check_4_child_name" in S and kind == "heap-buffer-overflow":
+            return "adf:num-sub-nodes-exceeds-entries-field"
+        if "ADFI_read_data_chunk_table" in S and kind == "heap-buffer-overflow":
+            return "adf:data-chunk-table-count-vs-chunk-length"
+        if kind == "stack-overflow" and "ADFI_chase_link" in S and "ADF_Get_Node_ID" in S:
+            return "adf:link-path-through-itself-unbounded-recursion"
+        if S & {"ADF_Get_Link_Path", "ADF_Link_Size"}:
+            if "ADFI_evaluate_datatype" in S and kind == "stack-buffer-overflow":
+                return "adf:link-datatype-more-than-one-token"
+            if kind.startswith("negative-size-param"):
+                return "adf:link-payload-negative-length"
+            if kind.startswith("ubsan-index") and "out-of-bounds" in kind:
+                return "adf:link-payload-length-truncated-to-int"
+            if kind == "stack-buffer-overflow" and "ADFI_read_data_chunk" in S:
+                return "adf:link-payload-longer-than-buffer"
+            if kind == "stack-buffer-overflow" and top in ("ADF_Get_Link_Path", "ADF_Link_Size"):
+                return "adf:link-file-part-longer-than-chase-buffer"
+        if kind.startswith("ubsan-left-shift") and S & {"ADFI_convert_integers", "ADFI_convert_number_format"}:
+            return "adf:file-header-format-letter-negative-shift"
+        if top == "ADFI_stridx_c" and "ADFI_read_node_header" in S:
+            return "adf:node-header-tag-scan-past-buffer"
+        if top == "ADFI_evaluate_datatype" and kind.startswith("ubsan-signed-integer-overflow"):
+            return "adf:datatype-array-length-int-overflow"
+        if "cgi_read_node" in S or "cgi_read_node_data" in S:
+            if kind in ("heap-use-after-free", "stack-buffer-overflow", "SEGV", "heap-buffer-overflow", "global-buffer-overflow",
+                        "stack-buffer-underflow", "unknown-crash", "signal11") and "ADF_Read_All_Data" in S and fclass.endswith("data_type"):
+                return "mll:node-data-type-without-buffer"
+        if top == "cgi_read_ptset" and kind == "heap-buffer-overflow":
+            return "mll:point-range-shorter-than-2-index-dim"
+        if kind.startswith("ubsan-signed-integer-overflow") and top in ("cgio_compute_data_size", "cgio_get_data_size"):
+            neg = bool(re.search(r"overflow: -\d+ \*", umsg or ""))
+            return "adf:dimension-value-exceeds-cgsize" if neg else "cgio:data-size-product-overflow"
+        if kind == "heap-buffer-overflow" and "ADF_Read_All_Data" in S:
+            if fclass == "node.data_type":
+                return "adf:compound-datatype-read-into-2-char-typed-buffer"
+            if fclass in ("fileheader.sizeof", "node.header-sizeof-int-dim-halved"):
+                return "adf:header-type-size-vs-untranslated-copy"
+    return "%s:%s@%s:%s" % (backend, kind, top, fclass)
 
 
 # ------------------------------------------------------------------ model-guided mutants of one ADF file
@@ -255,7 +345,8 @@ class AdfFile:
                 else:
                     orig = int.from_bytes(d[o:o + 8], "little")
                     for lab, v in [("0", 0), ("1", 1), ("13", 13), ("2^32-1", 0xFFFFFFFF), ("2^32+orig", (1 << 32) + orig), ("2^31", 1 << 31),
-                                   ("2^63", 1 << 63), ("2^64-1", (1 << 64) - 1), ("orig+1", orig + 1), ("5122", 5122), ("65537", 65537)]:
+                                   ("2^63", 1 << 63), ("2^64-1", (1 << 64) - 1), ("orig+1", orig + 1), ("5122", 5122), ("65537", 65537),
+                                   ("2^62", 1 << 62), ("2^61+1", (1 << 61) + 1), ("2^63-1", (1 << 63) - 1)]:
                         req.append("int 8 %x" % v); slots.append(("%s.dim%d=%s" % (tagn, k, lab), "dims", o))
             nch = int(nd["nchunks"])
             hexfield(tagn + ".number_of_data_chunks", p + nf[20][0], 4,
@@ -336,6 +427,12 @@ class AdfFile:
                     M.append(("node@%d: LK with %d-char file part" % (p, min(dlen - 4, 3000)), "structural",
                               [ty, (dp + 16, b"f" * min(dlen - 4, 3000) + b">/S")]))
                     M.append(("node@%d: LK with long path part" % p, "structural", [ty, (dp + 16, b">/" + b"p" * (dlen - 2))]))
+            if int(nd["nchunks"]) == 1 and nd["type"] == "4934" and int(nd["ndims"]) == 1 and not self.old:   # I4 read as 8-byte ints
+                o0 = p + nf[8][0]
+                dlen = int.from_bytes(d[o0:o0 + 8], "little")
+                if dlen >= 2:
+                    M.append(("node@%d: header sizeof(int)=8, dim halved" % p, "structural",
+                              [(fh[11][0], b"08"), (o0, (dlen // 2).to_bytes(8, "little" if int(self.attr["fmt"]) == 76 else "big"))]))
         return M
 
     def decode_ptr(self, b12):
@@ -360,21 +457,32 @@ def apply_patches(data, patches):
     return bytes(b)
 
 
-# ------------------------------------------------------------------ running one mutant on the implementation
+# ------------------------------------------------------------------ running one file on the implementation
 class Impl:
     def __init__(self, ck, adf_exe, io_exe):
         self.ck, self.adf, self.io = ck, adf_exe, io_exe
+        self.slow = 0
 
-    def run(self, idx, data, backend, cwd, walk=True):
+    def one(self, exe, args, cwd):
+        """one watchdogged run; a timeout is confirmed with a long watchdog before it counts"""
+        r = vlib.run_impl(exe, "", args=args, timeout=WATCHDOG, cwd=cwd)
+        if r[1] == "timeout":
+            r2 = vlib.run_impl(exe, "", args=args, timeout=WATCHDOG_CONFIRM, cwd=cwd)
+            if r2[1] != "timeout":
+                self.slow += 1
+                return r2
+        return r
+
+    def run(self, idx, data, backend, cwd, walk=True, check=True):
         """-> dict(mode -> (lines, outcome)), hash_ok"""
         path = os.path.join(cwd, "mut_%d.%s" % (idx, "adf" if backend == "adf" else "hdf"))
         open(path, "wb").write(data)
         h0 = hashlib.sha256(data).hexdigest()
         res = {}
         if walk:
-            res["walk"] = vlib.run_impl(self.adf, "", args=["walk", path, str(FUEL)], timeout=WATCHDOG, cwd=cwd)
-        for mode in ("check", "cgio", "mll"):
-            res[mode] = vlib.run_impl(self.io, "", args=[mode, path], timeout=WATCHDOG, cwd=cwd)
+            res["walk"] = self.one(self.adf, ["walk", path, str(FUEL)], cwd)
+        for mode in (("check",) if check else ()) + ("cgio", "mll"):
+            res[mode] = self.one(self.io, [mode, path], cwd)
         same = sha(path) == h0
         try:
             os.unlink(path)
@@ -448,8 +556,9 @@ def run(ck):
     ck.cov["trusted_base"] = [
         "Coq 8.16.1 kernel + vm_compute", "extraction (ExtrOcamlBasic only), OCaml 4.13.1, ocaml/zutil.ml, ocaml/eng_c13.ml",
         "harness/c13_adf.c (ADF-level walk, same order as AdfWalk.visit), harness/c13_io.c (cgio walk, MLL read, corpus maker)",
-        "ASan/UBSan/assert as detectors of memory errors in everything the model does not cover; 10 s watchdog",
-        "hand transcription of ADF_internals.c / ADF_interface.c, validated by the correspondence below on every run",
+        "ASan/UBSan/assert as detectors of memory errors in everything the model does not cover; 10 s watchdog (60 s to confirm)",
+        "hand transcription of ADF_internals.c / ADF_interface.c in both states (before / after notes/C13-fixes), validated by "
+        "the correspondence below on every run against the state the library is found in",
         "libhdf5 1.10 (not modelled)"]
     ck.assumptions = ["little-endian 64-bit build (machine format 'L', os size 'B'), cgsize_t 64-bit", "files shorter than 2^63 bytes",
                       "a read-only file is not changed by another process during the walk (the model reads an immutable byte string)",
@@ -461,12 +570,13 @@ def run(ck):
     corr_broken = []
     stats = {"walk": {}, "oracle_runs": 0, "classes": {}, "files": {}}
     work = ck.work
+    rng = ck.rng
 
     def note_finding(key, replay):
         if key not in findings or len(replay.get("file_b64", "")) < len(findings[key].get("file_b64", "")):
             findings[key] = replay
 
-    def oracle(desc, backend, base, data, res, same, cwd, idx, extra=None):
+    def oracle(desc, backend, base, data, res, same, cwd, idx, extra=None, force_key=None):
         """the property itself: every run is a clean return and the file is unchanged"""
         bad = False
         for mode, (lines, outcome) in res.items():
@@ -475,15 +585,19 @@ def run(ck):
             if clean:
                 continue
             bad = True
-            path = os.path.join(cwd, "crash_%d.%s" % (idx, "adf" if backend == "adf" else "hdf"))
+            path = os.path.join(cwd, "crash_%d_%s.%s" % (idx, mode, "adf" if backend == "adf" else "hdf"))
             open(path, "wb").write(data)
             exe, args = impl.exe_args(mode, path)
-            key = outcome_key(backend, mode, outcome, lines, exe, args, cwd, hint=(extra or {}).get("class"))
+            frames, umsg = crash_report(exe, args, cwd) if outcome != "timeout" else ([], None)
+            key = force_key or root_cause(backend, mode, outcome, lines, frames, umsg, field_class(desc))
             os.unlink(path)
             rp = {"what": desc, "base_file": base, "backend": backend, "mode": mode, "outcome": outcome, "last_lines": lines[-3:],
+                  "library_frames": lib_frames(frames)[:8],
                   "oracle": "clean return from every read-only operation (no asan/ubsan/signal/timeout/exit)",
                   "file_b64": base64.b64encode(data).decode(), "file_len": len(data),
                   "replay_hint": "base64 -d > f ; .build/h/%s %s" % (os.path.basename(exe), " ".join(a if a != path else "f" for a in args))}
+            if umsg:
+                rp["ubsan"] = umsg[:160]
             if extra:
                 rp.update(extra)
             note_finding(key, rp)
@@ -495,7 +609,6 @@ def run(ck):
         return bad
 
     # ---- 1. decoder level: hex and ASCII disk pointers, one process each side
-    rng = ck.rng
     alpha = [0x2f, 0x30, 0x39, 0x3a, 0x40, 0x41, 0x46, 0x47, 0x60, 0x61, 0x66, 0x67, 0x20, 0x00, 0x80, 0xff, 0x35, 0x42, 0x63]
     hexcases = []
     for n in range(0, 10):
@@ -519,8 +632,8 @@ def run(ck):
         corr_broken.append({"level": "decoder", "case": hexcases[d[0]] if d and d[0] < len(hexcases) else None, "model": d[1] if d else None,
                             "impl": d[2] if d else None, "outcome": outcome})
     ck.cov["samples"].append({"level": "decoder", "cases": hexcases[:4], "model": ml[:4]})
-
     stats["t_decoder"] = round(time.time() - ck.t0, 1)
+
     # ---- 2. corpus of valid files, made by the harness itself
     cdir = os.path.join(work, "corpus")
     os.makedirs(cdir, exist_ok=True)
@@ -530,45 +643,110 @@ def run(ck):
     adf_names = sorted(f for f in os.listdir(cdir) if f.endswith(".adf"))
     hdf_names = sorted(f for f in os.listdir(cdir) if f.endswith(".hdf"))
 
-    # ---- 3. witness files of the theorems, replayed on the implementation
-    wl = model("".join("witness %s\n" % w for w in WITNESSES))
-    wfiles = dict((w, bytes.fromhex(l.split()[1])) for w, l in zip(WITNESSES, wl))
-    wscript = "".join("file %d %s\n" % (FUEL if w != "cycle" else 30, wfiles[w].hex()) for w in WITNESSES)
-    wmodel = blocks(model(wscript))
+    # ---- 3. the witness files of corpus/C13: which state is the library in?  (the run-time switch)
+    index = json.load(open(os.path.join(CORPUS, "index.json")))
     wdir = os.path.join(work, "wit"); os.makedirs(wdir, exist_ok=True)
-    wit_report = {}
-    for k, w in enumerate(WITNESSES):
-        data = wfiles[w]
-        path = os.path.join(wdir, "w_%s.adf" % w)
-        open(path, "wb").write(data)
-        fuel = FUEL if w != "cycle" else 30
-        il, outcome = vlib.run_impl(adf_exe, "", args=["walk", path, str(fuel)], timeout=WATCHDOG, cwd=wdir)
-        st, detail = compare_walk(wmodel[k], il, outcome)
-        wit_report[w] = {"model_last": wmodel[k][-2:], "impl_outcome": outcome, "status": st}
-        ck.case("witness:" + w, sample={"level": "witness", "name": w, "model_tail": wmodel[k][-3:], "impl_outcome": outcome})
-        ck.cov["traces_validated_against_impl"] += 1
-        if st == "DIVERGE":
-            corr_broken.append({"level": "witness", "witness": w, "detail": detail})
-        if w == "oobw":
-            # the section-6 #12 defect, exactly as stated: open read-only, cgio_get_node_id / ADF_Get_Node_ID of a child
-            pl, po = vlib.run_impl(adf_exe, "", args=["probe", path, "B"], timeout=WATCHDOG, cwd=wdir)
-            if po != "ok":
-                where, fn = crash_site(adf_exe, ["probe", path, "B"], wdir)
-                ck.finding(KNOWN_DEFECT_KEY, {
-                    "what": "valid file, root has 2 children; root header entries_for_sub_nodes 00000008 -> 00000002; open read-only; "
-                            "ADF_Get_Node_ID(root, \"B\")", "outcome": po, "first_library_frame": fn,
-                    "model": "C13_oob_refuted: check_4_child_name = OOBW 1 (ADFI_read_sub_node_table stores the 8 entries the chunk's "
-                             "end pointer implies into malloc(entries_for_sub_nodes * sizeof entry))",
-                    "file_b64": base64.b64encode(data).decode(), "replay_hint": "base64 -d > f.adf ; .build/h/c13_adf probe f.adf B"})
-        # the cgio / MLL oracle on the witness as well
-        if w != "valid":
-            res2, same = impl.run(9000 + k, data, "adf", wdir, walk=True)
-            oracle("theorem witness wit_" + w, "adf", "wit_" + w, data, res2, same, wdir, 9000 + k, {"theorem_witness": w})
-    ck.extra["witness_replay"] = wit_report
+    wdata = {}
+    for w in index:
+        wdata[w["file"]] = open(os.path.join(CORPUS, w["file"]), "rb").read()
+        open(os.path.join(wdir, w["file"]), "wb").write(wdata[w["file"]])
+    # the theorems speak about AdfWalk.wit_*: the corpus files must be those byte strings
+    mw = [w for w in index if w["model_witness"]]
+    wl = model("".join("witness %s\n" % w["model_witness"] for w in mw))
+    for w, l in zip(mw, wl):
+        if bytes.fromhex(l.split()[1]) != wdata[w["file"]]:
+            corr_broken.append({"level": "witness", "witness": w["file"], "detail": "corpus file differs from AdfWalk.wit_%s" % w["model_witness"]})
 
+    def wfuel(w):
+        return 30 if w["model_witness"] == "cycle" else FUEL
+
+    iwalk = {}
+    for w in mw:
+        iwalk[w["file"]] = vlib.run_impl(adf_exe, "", args=["walk", os.path.join(wdir, w["file"]), str(wfuel(w))], timeout=WATCHDOG, cwd=wdir)
+
+    def predict(bits, ws):
+        out = blocks(model("".join("file %d %s\n" % (wfuel(w), wdata[w["file"]].hex()) for w in ws), bits=bits))
+        return dict((w["file"], b) for w, b in zip(ws, out))
+
+    state, how = {}, {}
+    for fl in FLAGS:
+        ws = [w for w in mw if w["flag"] == fl]
+        s0 = dict(state); s0[fl] = False
+        s1 = dict(state); s1[fl] = True
+        p0, p1 = predict(cfgbits(s0), ws), predict(cfgbits(s1), ws)
+        verdict = None
+        for w in ws:
+            f = w["file"]
+            if canon(p0[f]) == canon(p1[f]):
+                continue                                     # this witness does not tell the two states apart (masked)
+            il, outcome = iwalk[f]
+            st1, _ = compare_walk(p1[f], il, outcome)
+            st0, _ = compare_walk(p0[f], il, outcome)
+            if st1 in ("same", "fuel"):
+                v = True
+            elif st0 != "DIVERGE":
+                v = False
+            else:
+                corr_broken.append({"level": "switch", "witness": f, "flag": fl, "impl_outcome": outcome, "impl_tail": il[-3:],
+                                    "legacy_model_tail": p0[f][-3:], "repaired_model_tail": p1[f][-3:]})
+                v = False
+            if verdict is None or v is False:
+                verdict = v
+        if verdict is None:
+            state[fl], how[fl] = True, "repaired (not observable with the other switches as found)"
+        else:
+            state[fl], how[fl] = verdict, "repaired" if verdict else "legacy"
+    _CFG["bits"] = cfgbits(state)
+    ck.extra["library_state"] = dict((FLAG_FIX[f] + "-" + f, how[f]) for f in FLAGS)
+    ck.extra["model_state_compared"] = _CFG["bits"]
+
+    # every witness: correspondence in the state found, and the oracle in all modes
+    pm = predict(_CFG["bits"], mw)
+    wit_report = {}
+    for k, w in enumerate(index):
+        f = w["file"]; data = wdata[f]
+        rep = {"fix": w["fix"], "key": w["key"]}
+        if w["model_witness"]:
+            il, outcome = iwalk[f]
+            st, detail = compare_walk(pm[f], il, outcome)
+            rep.update({"model_tail": pm[f][-2:], "impl_outcome": outcome, "status": st})
+            ck.case("witness:" + f, sample={"level": "witness", "name": f, "model_tail": pm[f][-3:], "impl_outcome": outcome})
+            ck.cov["traces_validated_against_impl"] += 1
+            if st == "DIVERGE":
+                corr_broken.append({"level": "witness", "witness": f, "detail": detail})
+        res2, same = impl.run(9000 + k, data, "adf", wdir, walk=bool(w["model_witness"]) and w["model_witness"] != "cycle")
+        if w["model_witness"] == "cycle":
+            res2.pop("walk", None)
+        if f == "wit_oobw.adf":
+            # the section-6 #12 defect exactly as stated: open read-only, ADF_Get_Node_ID(root, "B")
+            res2["probe"] = vlib.run_impl(adf_exe, "", args=["probe", os.path.join(wdir, f), "B"], timeout=WATCHDOG, cwd=wdir)
+        bad = oracle("witness " + f + ": " + w["what"], "adf", f, data, dict((m, r) for m, r in res2.items() if m != "probe"), same, wdir,
+                     9000 + k, {"witness": f, "repair": "notes/C13-fixes/%s-*.diff" % w["fix"] if w["fix"] else None}, force_key=w["key"])
+        if "probe" in res2 and res2["probe"][1] != "ok":
+            bad = True
+            note_finding(w["key"], {"what": w["what"] + "; open read-only; ADF_Get_Node_ID(root, \"B\")", "outcome": res2["probe"][1],
+                                    "witness": f, "file_b64": base64.b64encode(data).decode(),
+                                    "replay_hint": "base64 -d > f.adf ; .build/h/c13_adf probe f.adf B"})
+        if "history" in w["fails_on_unrepaired"]:
+            # history independence: the walk of this file after another file was read must be the walk of this file
+            l1, o1 = vlib.run_impl(adf_exe, "", args=["walk", os.path.join(wdir, f), str(FUEL)], timeout=WATCHDOG, cwd=wdir)
+            l2, o2 = vlib.run_impl(adf_exe, "", args=["walk2", os.path.join(wdir, "wit_valid.adf"), os.path.join(wdir, f), str(FUEL)],
+                                   timeout=WATCHDOG, cwd=wdir)
+            if (l1, o1) != (l2, o2):
+                bad = True
+                note_finding(w["key"], {"what": w["what"], "witness": f, "oracle": "what the library reports about a file does not depend on "
+                                        "the files read before (walk2 wit_valid.adf FILE = walk FILE)", "alone": l1[:4], "after_valid_file": l2[:4],
+                                        "file_b64": base64.b64encode(data).decode(),
+                                        "replay_hint": "base64 -d > f.adf ; .build/h/c13_adf walk2 corpus/C13/wit_valid.adf f.adf 400"})
+        rep["oracle"] = "FAILS" if bad else "holds"
+        wit_report[f] = rep
+        if w["key"] is None and bad:
+            corr_broken.append({"level": "witness", "witness": f, "detail": "a file that must be handled cleanly is not"})
+    ck.extra["witness_replay"] = wit_report
     stats["t_witness"] = round(time.time() - ck.t0, 1)
+
     # ---- 4. ADF: truncations, model-guided field corruptions, structural attacks
-    quota = None if big else 330          # mutants per file in quick (a seeded sample; every class kept represented)
+    quota = None if big else 170          # mutants per file in quick (a seeded sample; every class kept represented)
     tasks = []                            # (file, idx, desc, cls, data, model script line)
     files = {}
     for name in adf_names:
@@ -597,7 +775,9 @@ def run(ck):
             lens = list(range(0, min(eof + 40, len(data)) + 1))
         else:
             lens = sorted(m for m in marks if 0 <= m <= len(data))
-            lens += [rng.randrange(0, min(eof + 40, len(data))) for _ in range(400 if big else 45)]
+            if not big and len(lens) > 40:
+                lens = sorted(set(rng.sample(lens, 40) + [0, 31, 32, 101, 102, 185, 186, 266, eof - 1]))
+            lens += [rng.randrange(0, min(eof + 40, len(data))) for _ in range(400 if big else 12)]
         tr = [("truncate to %d" % L, "truncation", L) for L in sorted(set(lens))]
         if quota is not None and len(muts) > quota:
             by = {}
@@ -605,19 +785,21 @@ def run(ck):
                 by.setdefault(m[1], []).append(m)
             keep = []
             for cls, lst in sorted(by.items()):
-                share = max(12, int(quota * len(lst) / len(muts)))
+                share = max(8, int(quota * len(lst) / len(muts)))
                 keep += lst if len(lst) <= share else rng.sample(lst, share)
             muts = keep
         stats["files"][name] = {"len": len(data), "nodes": len(af.nodes), "field_mutants": len(muts), "truncations": len(tr),
                                 "model_layout_s": round(time.time() - t0, 2)}
         for desc, cls, L in tr:
-            tasks.append((name, len(tasks), desc, cls, data[:L], "trunc %d %d" % (FUEL, L), "tcheck %d" % L))
+            tasks.append((name, len(tasks), desc, cls, data[:L], "trunc %d %d" % (FUEL, L), "tcheck %d" % L, True))
         for desc, cls, patches in muts:
             patches = [(o, v) for o, v in patches if 0 <= o < len(data) and v]
             if not patches:
                 continue
             ps = ",".join("%d:%s" % (o, v[:len(data) - o].hex()) for o, v in patches)
-            tasks.append((name, len(tasks), desc, cls, apply_patches(data, patches), "mutn %d %s" % (FUEL, ps), "mcheckn " + ps))
+            # cgio_check_file looks at the first 32 bytes (and for an HDF5 signature): in quick it runs when those change
+            need_check = big or any(o < 64 for o, v in patches)
+            tasks.append((name, len(tasks), desc, cls, apply_patches(data, patches), "mutn %d %s" % (FUEL, ps), "mcheckn " + ps, need_check))
 
     stats["t_generated"] = round(time.time() - ck.t0, 1)
     # model side: one process per base file, in the pool
@@ -640,7 +822,7 @@ def run(ck):
 
     def impl_job(t):
         name, idx, desc, cls, data = t[:5]
-        return idx, impl.run(idx, data, "adf", cdir)
+        return idx, impl.run(idx, data, "adf", cdir, check=t[7])
 
     t0 = time.time()
     with ThreadPoolExecutor(WORKERS) as ex:
@@ -663,11 +845,11 @@ def run(ck):
         st, detail = compare_walk(mwalk, il, outcome)
         stats["walk"][st] = stats["walk"].get(st, 0) + 1
         # check_file verdict
-        cl = res["check"][0]
-        impl_adf = bool(cl) and cl[-1].startswith("check rc=0 type=1")
-        if res["check"][1] == "ok" and (mcheck == "c 1") != impl_adf and mcheck != "c 2":
-            st, detail = "DIVERGE", {"check_file": {"model": mcheck, "impl": cl[-1:]}}
-        opened = len(mwalk) > 1 and mwalk[0].startswith("open ok")
+        if "check" in res:
+            cl = res["check"][0]
+            impl_adf = bool(cl) and cl[-1].startswith("check rc=0 type=1")
+            if res["check"][1] == "ok" and (mcheck == "c 1") != impl_adf and mcheck != "c 2":
+                st, detail = "DIVERGE", {"check_file": {"model": mcheck, "impl": cl[-1:]}}
         rejected = any(" err " in l or l.startswith("open err") for l in mwalk)
         ck.case("%s|%s" % (name, desc) if (rejected or ABN.search("\n".join(mwalk))) else None,
                 sample={"level": "walk", "file": name, "mutant": desc, "model_verdict": [l for l in mwalk if "err" in l or "!" in l][:2],
@@ -693,7 +875,7 @@ def run(ck):
                b"label", b"type", b"name", b" data", b" link", b" path", b" file", b"I4", b"R8", b"C1", b"LK", b"MT"]
     for name in hdf_names:
         data = open(os.path.join(cdir, name), "rb").read()
-        nt = (300 if big else 40)
+        nt = (300 if big else 14)
         lens = sorted(set([0, 1, 7, 8, 9, 95, 96, 511, 512, 1024, 2048, len(data) - 1] + [rng.randrange(0, len(data)) for _ in range(nt)]))
         for L in lens:
             if L <= len(data):
@@ -707,12 +889,12 @@ def run(ck):
                     break
                 sites.append((mk, k)); start = k + 1
         rng.shuffle(sites)
-        budget = 1500 if big else 110
+        budget = 1500 if big else 60
         for mk, k in sites:
             if budget <= 0:
                 break
             offs = list(range(max(k - 24, 0), min(k + len(mk) + 16, len(data))))
-            for off in rng.sample(offs, min(len(offs), 6 if not big else 20)):
+            for off in rng.sample(offs, min(len(offs), 4 if not big else 20)):
                 v = rng.choice([0x00, 0xFF, data[off] ^ 0x01, data[off] ^ 0x80, 0x2f, data[off] + 1 & 0xFF])
                 if v == data[off]:
                     continue
@@ -738,20 +920,22 @@ def run(ck):
     # ---- 6. verdicts
     for key in sorted(findings):
         ck.finding(key, findings[key])
+    stats["slow_but_terminating_runs"] = impl.slow
     ck.extra["finding_keys_seen"] = sorted(findings)
     ck.extra["input_distribution"] = stats
     ck.extra["correspondence_divergences"] = len(corr_broken)
     ck.extra["divergence_samples"] = [dict((k, v) for k, v in c.items() if k != "file_b64") for c in corr_broken[:12]]
     if (corr_broken or broken) and not ck.violations:
         ck.violation({"broken_obligations": broken, "broken_correspondence": corr_broken[:4], "count": len(corr_broken),
-                      "note": "the model (coq/AdfCodec.v, AdfWalk.v) and the implementation disagree, or an obligation of "
+                      "note": "the model (coq/AdfCodec.v, AdfWalk.v, state %s) and the implementation disagree, or an obligation of "
                               "Properties_C13.v no longer checks, but every file explored still satisfies the property's oracle "
-                              "beyond the listed known findings"}, nofail=True)
+                              "beyond the listed known findings" % _CFG["bits"]}, nofail=True)
     ck.cov["rule"] = ("decoder level: seeded hex / ASCII-disk-pointer strings over the boundary alphabet (/ 0 9 : @ A F G ` a f g, blank, NUL, "
-                      "high bit), lengths 0..9; file level: for each of the harness-made valid ADF files (cgio trees, links, multi-chunk data, "
-                      "legacy pointer format, two MLL files) all structure-boundary truncation lengths plus a seeded sample (thorough: every "
-                      "length of the small files), every field of every structure located by the model's decoders set to each boundary class "
-                      "(quick: a per-class seeded sample), structural attacks assembled with the model's encoders, and the theorem witnesses; "
+                      "high bit), lengths 0..9; witness level: every file of corpus/C13 (one per defect ever found) in all modes -- they also "
+                      "decide which state of the model is compared; file level: for each of the harness-made valid ADF files (cgio trees, "
+                      "links, multi-chunk data, legacy pointer format, two MLL files) all structure-boundary truncation lengths plus a seeded "
+                      "sample (thorough: every length of the small files), every field of every structure located by the model's decoders set "
+                      "to each boundary class (quick: a per-class seeded sample), structural attacks assembled with the model's encoders; "
                       "HDF5: seeded truncations and byte corruptions near marker values. Each mutant: model walk vs ADF-level walk "
                       "(correspondence) and cgio_check_file / cgio walk / cg_open+MLL read in separate watchdogged processes (oracle). "
                       "non-trivial = the model rejects something or predicts a forbidden outcome on it (ADF), or some API call returns an "
@@ -769,14 +953,28 @@ def replay(ck, path):
     backend = r.get("backend", "adf")
     f = os.path.join(ck.work, "replay." + ("adf" if backend == "adf" else "hdf"))
     open(f, "wb").write(data)
+    # files that reach other files through links need them next to them
+    cdir = os.path.join(ck.work, "corpus"); os.makedirs(cdir, exist_ok=True)
+    vlib.run_impl(io_exe, "", args=["mkcorpus", cdir], timeout=120)
+    for n in os.listdir(cdir):
+        if not os.path.exists(os.path.join(ck.work, n)):
+            open(os.path.join(ck.work, n), "wb").write(open(os.path.join(cdir, n), "rb").read())
     fails = False
-    if r.get("finding_key") == KNOWN_DEFECT_KEY or "probe" in r.get("replay_hint", ""):
+    hint = r.get("replay_hint", "")
+    if " probe " in hint:
         runs = [("probe", adf_exe, ["probe", f, "B"])]
+    elif " walk2 " in hint:
+        l1 = vlib.run_impl(adf_exe, "", args=["walk", f, str(FUEL)], timeout=WATCHDOG, cwd=ck.work)
+        l2 = vlib.run_impl(adf_exe, "", args=["walk2", os.path.join(CORPUS, "wit_valid.adf"), f, str(FUEL)], timeout=WATCHDOG, cwd=ck.work)
+        bad = l1 != l2
+        print("replay: walk alone %s / after wit_valid.adf %s%s" % (l1[0][:3], l2[0][:3], "  (property FAILS)" if bad else ""))
+        print("replay: property %s on this input" % ("FAILS" if bad else "holds"))
+        return 1 if bad else 0
     else:
         runs = [("walk", adf_exe, ["walk", f, str(FUEL)])] if backend == "adf" else []
         runs += [(m, io_exe, [m, f]) for m in ("check", "cgio", "mll")]
     for mode, exe, args in runs:
-        lines, outcome = vlib.run_impl(exe, "", args=args, timeout=WATCHDOG, cwd=ck.work)
+        lines, outcome = vlib.run_impl(exe, "", args=args, timeout=WATCHDOG_CONFIRM, cwd=ck.work)
         bad = outcome != "ok" or "libexit" in lines
         print("replay: %s -> %s%s" % (mode, outcome, "  (property FAILS)" if bad else ""))
         fails = fails or bad
